@@ -7,7 +7,7 @@ cd /repo || exit 2
 if [ -n "$(git status --porcelain)" ]; then echo "/repo is dirty, refusing"; exit 2; fi
 trap 'git -C /repo checkout -- . ; git -C /repo clean -fdq' EXIT
 git apply "$PATCH" || { echo "patch does not apply"; exit 2; }
-cd /verif
+cd "${VERIF_CHECK_ROOT:-/verif}"
 for id in "$@"; do
   out=$(./check "$id" "$TIER" 2>&1)
   rc=$?
